@@ -24,7 +24,14 @@ RULE = ("seeded P-code generator with ~45 % UOD command lines (Short/Long/Long2/
         "[Other, Long2], [Other, Short]); a second, directed stratum uses such UODs with a sequence of 2-6 single requests "
         "of the listed commands in a seeded order (every order arises), one request per tick, issued as consecutive method "
         "lines, separated by Mark/Wait lines, or injected 1-4 ticks apart while the earlier multi-tick commands still run, "
-        "optionally followed by a Stop; two commands conflict iff they share ANY declared overlap list")
+        "optionally followed by a Stop; two commands conflict iff they share ANY declared overlap list. A third, directed "
+        "same-tick stratum (960 quick / 19 200 thorough runs) lets two or three interpreter paths - main program + body of a "
+        "Watch or Alarm, two interrupt handlers with or without the main program, two Alarms with bodies of equal period "
+        "(the burst repeats on lines requested and cancelled before), main program / Watch + injected code - issue "
+        "same-name, overlapping or non-conflicting UOD commands timed onto ONE tick (~2/3 aligned, the rest one tick apart), "
+        "with or without an older conflicting instance still running, under the standard and multi-list UODs, optionally "
+        "inside a Block, followed by a later single request, a Stop/Restart or a cancel; same-tick requests are ordered by "
+        "their arrival at CommandManager.schedule")
 ASSUMPTIONS = [
     "'execute' is observed as a call of the command's exec function; an instance is alive from its init call to its "
     "finalize call; callbacks are logged by the rig UOD with cmd.instance_id",
@@ -35,14 +42,22 @@ ASSUMPTIONS = [
     "finalized before the second was initialised (the statement is per tick)",
     "6 % of the runs also issue UOD commands through execute_control_command_from_user; the statement quantifies over "
     "methods and injected code only, so anomalies in those runs are counted (unjudged_*), not judged",
-    "request origin/arrival tick and aborted cancellations are observed by recording wrappers on "
-    "CommandRequest.from_user, CommandManager.schedule and Tracking.mark_cancelled (classifiers only)",
+    "request origin and aborted cancellations are observed by recording wrappers on CommandRequest.from_user and "
+    "Tracking.mark_cancelled (classifiers only); the tick for which a request is received and the arrival order within "
+    "that tick are observed by a recording wrapper on CommandManager.schedule (same-tick rules and classifiers)",
     "'declared as overlapping' = both names occur in at least one list given to UodBuilder.with_command_overlap; the "
     "relation is not transitive ([A, X] and [B, X] do not make A and B overlap) and does not depend on the order of the "
     "lists; multi-list UODs are the standard rig UOD with the lists declared through with_command_overlap",
-    "the known-finding class 'conflicting requests in one tick' is never applied to an exclusivity violation between an "
-    "older instance and a newer one whose request was the only UOD request (and no Stop/Restart) dequeued in its tick "
-    "when neither of the two is itself a request of a same-tick burst",
+    "same-tick bursts: 'requesting such a command first cancels the older one' is read in arrival order (order of the "
+    "CommandManager.schedule calls, observed by the recording wrapper) also for requests received for one tick: a request "
+    "followed in its tick by a conflicting request that is itself the newest of its conflict group in that tick must "
+    "have no exec call from that tick on, and that newest request must be initialised unless Engine.set_error_state was "
+    "called in that tick (command-manager loop aborted) or a Stop/Restart request was dequeued in that tick or the three "
+    "ticks before. Not judged: a request followed only by conflicting requests that are themselves superseded in the "
+    "tick by requests it does not conflict with (overlap is not transitive), and ticks containing a user-issued request. "
+    "There is no known-finding class for bursts any more: every anomaly in or around a burst is judged and attributed "
+    "to an observed cause (Stop/Restart queued behind the request, two requests under one instance id, aborted "
+    "cancellation) or reported",
 ]
 REQUIRED = {"instances_checked": 300, "exec_events": 1000, "conflicts_older_cancelled": 20, "cancel_requests": 5,
             "stops_with_live_instance": 5, "failed_instances": 5, "quiescence_checks": 100,
@@ -55,7 +70,19 @@ REQUIRED = {"instances_checked": 300, "exec_events": 1000, "conflicts_older_canc
             "multi_overlap_conflicts_via_later_declared_list": 120,
             "multi_overlap_conflicts_older_cancelled": 300,
             # ticks with exactly one new UOD request that conflicts with a live instance of another command
-            "multi_overlap_single_request_conflict_ticks": 400}
+            "multi_overlap_single_request_conflict_ticks": 400,
+            # same-tick bursts (>= 2 mutually conflicting UOD requests received for one command-manager tick): all, with
+            # an older conflicting instance alive / without, of >= 3 requests, same-name / overlapping pairs, repeated on
+            # the same lines in one run; requests judged as superseded / as the newest of their conflict group
+            "same_tick_conflicting_request_bursts": 400, "bursts_with_older_conflicting_instance_alive": 120,
+            "bursts_without_older_instance": 200, "bursts_of_3_or_more_requests": 40, "bursts_with_same_name_pair": 150,
+            "bursts_with_overlapping_pair": 200, "bursts_after_an_earlier_burst_of_the_run": 40,
+            "burst_superseded_requests_judged": 400, "burst_newest_requests_judged": 400,
+            "burst_newest_requests_started_in_their_tick": 350,
+            # per source of the second/third request: Watch body, Alarm body, two interrupt handlers, injected code
+            "bursts_in_directed_runs_watch": 50, "bursts_in_directed_runs_alarm": 50, "bursts_in_directed_runs_two": 60,
+            "bursts_in_directed_runs_two_alarms": 50, "bursts_in_directed_runs_inject": 25,
+            "bursts_in_directed_runs_watch_inject": 40}
 
 OVERLAP = (frozenset(("Long", "Long2")),)
 INJECT = ("Long\n", "Long2\n", "Other\n", "Fail\n", "Short\n", "Drive1\n", "Long\nLong2\n", "Mark: inj\nLong\n",
@@ -71,8 +98,9 @@ def conflicts(a: str, b: str) -> bool:
 def plan(tier, seed):
     n = 2400 if tier == "quick" else 60000
     nd = 480 if tier == "quick" else 9600       # directed multi-overlap runs (short: 2-6 requests, no structure)
+    nb = 960 if tier == "quick" else 19200      # directed same-tick runs (two or three paths aligned on one tick)
     shards = 16 if tier == "quick" else 48
-    return [{"seed": seed * 1000003 + i, "n": n // shards, "n_directed": nd // shards,
+    return [{"seed": seed * 1000003 + i, "n": n // shards, "n_directed": nd // shards, "n_burst": nb // shards,
              "max_depth": 3 if tier == "quick" else 4}
             for i in range(shards)]
 
@@ -143,6 +171,96 @@ def gen_directed(rnd: random.Random):
     sched.sort(key=lambda s: s[0])
     return {"text": "\n".join(lines) + "\n", "traj": [0.0], "long_n": long_n, "fail_at": rnd.randint(1, 3),
             "sched": sched, "overlaps": overlaps, "directed": mode}
+
+BURST_NAMES = ("Long", "Long2", "Other", "Drive1", "Short")
+
+
+def gen_burst(rnd: random.Random):
+    """Directed same-tick stratum: two or three UOD requests issued by different interpreter paths (main program + body
+    of a Watch / Alarm, two interrupt handlers, injected code) timed so that - for ~2/3 of the cases - they reach
+    CommandManager.schedule in ONE tick (the rest are near misses, one tick apart), same-name / overlapping /
+    non-conflicting, with and without an older instance still running, under the standard and under multi-list UODs,
+    optionally followed by a later single request, a Stop/Restart or a cancel. Interrupt handlers run after the main
+    program within a tick, a later registered handler after an earlier one, injected code after the method lines."""
+    from opv.rigs.cmd_rig import make_conflicts
+    multi = rnd.random() < 0.4
+    overlaps = gen_overlaps(rnd) if multi else None
+    ov = overlaps if multi else [sorted(o) for o in OVERLAP]
+    conf = make_conflicts(ov)
+    names = list(BURST_NAMES) + (["Fail"] if any("Fail" in o for o in ov) else [])
+    pairs = [(x, y) for x in names for y in names if x != y and conf(x, y)]
+    free = [(x, y) for x in names for y in names if not conf(x, y)]
+    kind = rnd.choice(["same", "same", "overlap", "overlap", "overlap", "free"])
+    if kind == "same":
+        a = b = rnd.choice(names)
+    elif kind == "overlap":
+        a, b = rnd.choice(pairs)
+    else:
+        a, b = rnd.choice(free)
+    partners = [x for x in names if conf(x, a) or conf(x, b)]
+    c = rnd.choice(partners) if rnd.random() < 0.7 else rnd.choice(names)
+    older = rnd.choice([None, None, a, b, rnd.choice(partners), rnd.choice(partners), rnd.choice(names)])
+    later = rnd.choice([None, None, None, a, b, rnd.choice(partners)])
+    struct = rnd.choice(["watch", "watch", "alarm", "alarm", "two", "two", "two_nomain", "inject", "watch_inject",
+                         "two_alarms"])
+    in_block = rnd.random() < 0.25
+    w = rnd.choice([0.4, 0.5, 0.6])
+    j = rnd.choice([0.0, 0.0, 0.0, 0.0, 0.1, -0.1])        # 0 = the paths are aligned on one tick
+    opener = "Alarm: FT01 > 3 L/h" if struct == "alarm" else "Watch: Run Counter >= 0"
+    lines = ["Base: s"]
+    if older:
+        lines.append(older)
+    ind = ""
+    if in_block:
+        lines.append("Block: b1")
+        ind = "    "
+    sched: list[list] = []
+    # tick in which the main path's request is dequeued (measured on the rig; only used to place the schedule events)
+    est = 3 + 2 * bool(older) + bool(in_block)
+    if struct in ("watch", "alarm", "watch_inject"):
+        lines += [ind + opener, ind + "    Wait: %.1fs" % w, ind + "    " + b,
+                  ind + "Wait: %.1fs" % (w + 0.1 + j), ind + a]
+        est += round(10 * (w + 0.1 + j)) + 7
+        if struct == "watch_inject":
+            sched.append([est - 3 + rnd.choice([0, 0, 0, 1, -1]), "inject", c + "\n"])
+    elif struct == "two_alarms":
+        # two Alarms with bodies of equal duration, the second registered two ticks later: the burst repeats with every
+        # alarm period, on lines that were requested (and cancelled) before and with the previous winner still running
+        lines += [ind + "Alarm: FT01 > 3 L/h", ind + "    Wait: %.1fs" % w, ind + "    " + b,
+                  ind + "Alarm: FT01 > 3 L/h", ind + "    Wait: %.1fs" % (w - 0.2 + j), ind + "    " + c,
+                  ind + "    Mark: p"]
+        est += round(10 * w) + 8
+    elif struct in ("two", "two_nomain"):
+        lines += [ind + opener, ind + "    Wait: %.1fs" % w, ind + "    " + b,
+                  ind + "Watch: Run Counter >= 0", ind + "    Wait: %.1fs" % (w - 0.2 + j), ind + "    " + c]
+        if struct == "two":
+            lines += [ind + "Wait: %.1fs" % (w - 0.1 + rnd.choice([0.0, 0.0, 0.0, 0.1, -0.1])), ind + a]
+        est += round(10 * w) + 8
+    else:
+        lines += [ind + "Wait: %.1fs" % (w + 0.1), ind + a]
+        est += round(10 * (w + 0.1)) + 5
+        sched.append([est - 3 + round(10 * j), "inject", b + "\n"])
+        if rnd.random() < 0.4:
+            sched.append([est - 3 + round(10 * j), "inject", c + "\n"])
+    if later:
+        lines += [ind + "Wait: %.1fs" % rnd.choice([0.2, 0.3, 0.6]), ind + later]
+    lines.append(ind + "Wait: %.1fs" % rnd.choice([0.5, 1.5, 2.0]))
+    if in_block:
+        lines.append(ind + "End block")
+    r = rnd.random()
+    if r < 0.12:
+        sched.append([est + rnd.randint(-2, 8), "user", "Stop"])
+    elif r < 0.2:
+        sched.append([est + rnd.randint(-2, 8), "user", "Restart"])
+    elif r < 0.3:
+        sched.append([est + rnd.randint(-1, 6), "cancel", rnd.randint(0, 3)])
+    sched.sort(key=lambda s: s[0])
+    case = {"text": "\n".join(lines) + "\n", "traj": [6.0] * 45 + [0.0],
+            "long_n": rnd.choice([2, 6, 12, 16, 16]), "fail_at": rnd.randint(1, 3), "sched": sched,
+            "burst": struct}
+    if multi:
+        case["overlaps"] = overlaps
+    return case
 
 
 def gen_case(rnd: random.Random, max_depth=3):
@@ -393,6 +511,77 @@ def check_case(case, res: Result):
                 if len([x for x in overlaps if onm in x]) >= 2:
                     res.count("multi_overlap_conflicts_with_running_command_in_several_lists")
 
+    # (2b) same-tick bursts: >= 2 UOD requests received for one command-manager tick (arrival order = order of the
+    #      CommandManager.schedule calls). "requesting such a command first cancels the older one": a request that is
+    #      followed, in its own tick, by a conflicting request which is itself not superseded in that tick (the *newest*
+    #      of its conflict group) never executes from that tick on; that newest request is the one that gets started.
+    uod_reqs_at: dict[int, list] = {}
+    for q in reqs:
+        uod_reqs_at.setdefault(q[0], []).append(q)
+    ctl_req_ticks = {q[0] for q in all_reqs if q[1] in ("Stop", "Restart")}
+    n_bursts_in_run = 0
+    for t, qs in sorted(uod_reqs_at.items()):
+        if len(qs) < 2 or t > end_tick:
+            continue
+        if any(q[3] == "user" or q[2] in user_iids for q in qs):
+            res.count("ticks_with_several_uod_requests_one_user_issued_unjudged")     # see ASSUMPTIONS
+            continue
+        res.count("ticks_with_several_uod_requests")
+        newest = [not any(conflicts(q[1], o[1]) for o in qs[j + 1:]) for j, q in enumerate(qs)]
+        grp = [q for q in qs if any(o is not q and conflicts(o[1], q[1]) for o in qs)]
+        if len(grp) < 2:
+            res.count("ticks_with_several_non_conflicting_uod_requests")
+            continue
+        older_alive = [o for o in alive_at_tick_start.get(t, ()) if any(conflicts(name_of[o], q[1]) for q in grp)]
+        res.count("same_tick_conflicting_request_bursts")
+        res.count("bursts_of_3_or_more_requests" if len(grp) >= 3 else "bursts_of_2_requests")
+        res.count("bursts_with_older_conflicting_instance_alive" if older_alive else "bursts_without_older_instance")
+        if any(a[1] == b[1] for i, a in enumerate(grp) for b in grp[i + 1:]):
+            res.count("bursts_with_same_name_pair")
+        if any(a[1] != b[1] and conflicts(a[1], b[1]) for i, a in enumerate(grp) for b in grp[i + 1:]):
+            res.count("bursts_with_overlapping_pair")
+        if case.get("burst"):
+            res.count("bursts_in_directed_runs_" + case["burst"])
+        n_bursts_in_run += 1
+        if n_bursts_in_run >= 2:
+            res.count("bursts_after_an_earlier_burst_of_the_run")
+        for i, q in enumerate(qs):
+            sup = [o for j, o in enumerate(qs) if j > i and newest[j] and conflicts(q[1], o[1])]
+            if sup:
+                res.count("burst_superseded_requests_judged")
+                ex = [e for e in per.get(q[2], ()) if e[1] == "exec" and e[0] >= t]
+                if ex:
+                    V("C11.earlier_request_of_tick_executes_although_newer_conflicting_request_in_same_tick",
+                      f"tick {t}: requests in arrival order {[(o[1], o[2][:8]) for o in qs]}: {q[1]} {q[2][:8]} was "
+                      f"followed in the same tick by the conflicting request {sup[-1][1]} {sup[-1][2][:8]} but executes "
+                      f"at ticks {ex[0][0]}..{ex[-1][0]} ({len(ex)} exec calls) - the older request was not cancelled; "
+                      f"callbacks of the newer one: {[(e[0], e[1]) for e in per.get(sup[-1][2], ())][:4]}",
+                      [q[2], sup[-1][2]], t)
+                else:
+                    res.count("burst_superseded_requests_never_executed")
+            elif any(conflicts(q[1], o[1]) for o in qs[:i]):
+                # the newest request of a conflict group of this tick: it has to be started unless the command-manager
+                # loop of that tick was aborted by an exception or a Stop/Restart was being processed
+                res.count("burst_newest_requests_judged")
+                if q[2] in per:
+                    res.count("burst_newest_requests_started")
+                    if per[q[2]][0][0] == t:
+                        res.count("burst_newest_requests_started_in_their_tick")
+                elif t in error_ticks or any(t - 3 <= c <= t for c in ctl_req_ticks):
+                    res.count("burst_newest_requests_not_started_excused_error_or_stop")
+                else:
+                    olds = [o for o in qs[:i] if conflicts(q[1], o[1])]
+                    V("C11.newest_request_of_tick_never_started",
+                      f"tick {t}: requests in arrival order {[(o[1], o[2][:8]) for o in qs]}: {q[1]} {q[2][:8]} is the "
+                      f"newest of its conflict group but was never initialised (no Stop/Restart/error in that tick); "
+                      f"callbacks of the older requests of the tick: "
+                      f"{[(o[1], o[2][:8], [(e[0], e[1]) for e in per.get(o[2], ())][:3]) for o in olds]}",
+                      [q[2]] + [o[2] for o in olds], t)
+            elif any(conflicts(q[1], o[1]) for o in qs[i + 1:]):
+                # followed only by conflicting requests that are themselves superseded in this tick by requests this one
+                # does not conflict with (overlap is not transitive): the statement does not say which of them applies
+                res.count("burst_requests_followed_only_by_superseded_conflicting_requests_unjudged")
+
     # (3) quiescence
     def fin_tick(iid):
         return next((e[0] for e in per[iid] if e[1] == "fin"), None)
@@ -420,19 +609,14 @@ def check_case(case, res: Result):
              sample={"method": case["text"], "sched": case["sched"], "long_n": case["long_n"], "instances": len(order),
                      "conflicts": conflict_seen, "ticks": end_tick, "overlaps": overlaps})
     # ---- narrow classifiers
-    # (a) two or more mutually conflicting requests were dequeued by the same command-manager tick. The newest is
-    #     executed first, cancels "by name" (hitting the instance of a third, older request or nothing at all) and is
-    #     then itself cancelled by the older request of the same tick, which re-creates an instance under its own id.
-    burst = CR.burst_tainted(reqs, alive_at_tick_start, name_of, conflicts, UOD_NAMES)
-    n_burst = len(burst)
-    res.count("same_tick_conflicting_request_bursts", n_burst)
+    # There is no class "conflicting requests in one tick" any more: since /repo 1e1c6889 + 0e30d6ff a same-tick burst is
+    # resolved correctly (the newest request of the tick is started, the older ones are dropped), so every anomaly in or
+    # around a burst is judged by (1), (2), (2b) and attributed below to the cause that is actually observed in the run
+    # (Stop/Restart queued behind the request, two requests under one instance id, aborted cancellation, ...).
     if multi:
         # ticks whose only new UOD request conflicts, through a different command name, with an instance alive at the
-        # start of that tick: the situation in which a violation can never be a same-tick burst
-        per_tick_reqs: dict[int, list] = {}
-        for q in reqs:
-            per_tick_reqs.setdefault(q[0], []).append(q)
-        for t, qs in per_tick_reqs.items():
+        # start of that tick
+        for t, qs in uod_reqs_at.items():
             if len(qs) == 1 and any(name_of[a] != qs[0][1] and conflicts(name_of[a], qs[0][1])
                                     for a in alive_at_tick_start.get(t, ()) if a in name_of):
                 res.count("multi_overlap_single_request_conflict_ticks")
@@ -449,31 +633,10 @@ def check_case(case, res: Result):
     leaked = [(name_of[i], st) for st in stop_ticks for i in stop_race
               if i in per and per[i][0][0] <= st and (fin_tick(i) is None or fin_tick(i) > st)]
 
-    # ids of the requests that form the bursts (as opposed to conflicting instances merely alive at a burst tick)
-    uod_reqs_at: dict[int, list] = {}
-    for q in reqs:
-        uod_reqs_at.setdefault(q[0], []).append(q)
-    burst_req_ids = {q[2] for t in burst for q in uod_reqs_at.get(t, ())
-                     if any(o is not q and conflicts(o[1], q[1]) for o in uod_reqs_at[t])}
-    ctl_ticks = {q[0] for q in all_reqs if q[1] in ("Stop", "Restart")}
+    ctl_ticks = ctl_req_ticks
     req_ticks: dict[str, list] = {}
     for q in reqs:
         req_ticks.setdefault(q[2], []).append(q[0])
-
-    def lone_request_pair(involved, vtick):
-        """Exclusivity violation between a newer instance N and an older instance O where N's request was the only UOD
-        request dequeued in its tick (no Stop/Restart in that tick either), was scheduled once, and neither N nor O is a
-        request of a same-tick burst: whatever went wrong between the two, it is not 'conflicting requests in one tick'."""
-        if vtick is None or len(involved) != 2 or any(i not in per for i in involved):
-            return False
-        n, o = sorted(involved, key=lambda i: order.index(i), reverse=True)
-        tn = req_ticks.get(n, [])
-        if len(tn) != 1 or len(uod_reqs_at.get(tn[0], ())) != 1 or tn[0] in ctl_ticks:
-            return False
-        return n not in burst_req_ids and o not in burst_req_ids and per[o][0][0] < tn[0]
-
-    def in_burst(involved):
-        return any(i in ids for ids in burst.values() for i in involved)
 
     # (e) a request left without instance by an aborted command-manager loop: it was dequeued in tick tq together with a
     #     newer Fail request; Fail (newest first) raised in its exec, the exception left the loop over the executing list
@@ -500,18 +663,14 @@ def check_case(case, res: Result):
             if any(i in user_cancel_failed for i in involved):
                 res.count("unjudged_user_issued_command_cancel_aborted_before_finalize")
             continue
-        lone = lone_request_pair(involved, vtick)
-        if lone and in_burst(involved) and not any(i in stop_race for i in involved):
-            res.count("lone_request_pair_violations_kept_out_of_burst_class")
+        started = [i for i in involved if i in name_of]      # involved requests that ever had a callback
         if any(i in stop_race for i in involved):
             # (d) a UOD request queued before a Stop/Restart of the same tick survives the Stop's cancel phase
             mech = "C11.request_queued_before_stop_in_same_tick"
-        elif in_burst(involved) and not lone:
-            mech = "C11.conflicting_requests_in_one_tick"
         elif any(i in pending_after_abort for i in involved) or (
-                involved and leaked_pending and all(
+                started and leaked_pending and all(
                     any(conflicts(name_of[i], ln) and per[i][0][0] > lt for ln, lt in leaked_pending)
-                    for i in involved if i in name_of)):
+                    for i in started)):
             # (e) and its cascade (the surviving instance is re-used by name by later requests, as in (d'))
             mech = "C11.request_left_pending_by_failed_tick_starts_after_stop_cancel_phase"
         elif any(i in dup_req for i in involved):
@@ -519,8 +678,7 @@ def check_case(case, res: Result):
             #     record.last_instance_id instead of the id created for its own visit, so two interpreter paths walking
             #     the same line (stale Watch/Alarm handler surviving a reset, see C02 findings) request "the same" instance
             mech = "C11.two_requests_share_one_instance_id"
-        elif involved and all(any(conflicts(name_of[i], ln) and per[i][0][0] > lt for ln, lt in leaked) for i in involved
-                              if i in name_of):
+        elif started and all(any(conflicts(name_of[i], ln) and per[i][0][0] > lt for ln, lt in leaked) for i in started):
             # (d') cascade of (d): the instance that survived an earlier Stop/Restart stays in uod.command_instances and
             #      is re-used *by name* by every later request of that command (exec under the old id, no init)
             mech = "C11.request_queued_before_stop_in_same_tick"
@@ -561,6 +719,9 @@ def run_shard(spec):
     rnd = random.Random(spec["seed"] * 7919 + 17)
     for _ in range(spec.get("n_directed", 0)):
         check_case(gen_directed(rnd), res)
+    rnd = random.Random(spec["seed"] * 104729 + 29)
+    for _ in range(spec.get("n_burst", 0)):
+        check_case(gen_burst(rnd), res)
     return res
 
 
